@@ -85,6 +85,25 @@ def list_schemes() -> list[str]:
     return [s.value for s in Scheme]
 
 
+def linearize(expr: sympy.Expr, state: sympy.Symbol) -> sympy.Expr:
+    """Derivative of the rate expression with respect to the state itself
+
+    sympy differentiates a power with a real exponent by the general rule
+    d(u**p) = p * u**p * du / u. For a product that contains the state,
+    (a*y)**2.0, the result 2.0*(a*y)**2.0/y is 0/0 at y = 0, where the
+    derivative is simply 0. Exponents such as 2.0 (the usual spelling in
+    models converted from CellML) are therefore differentiated as integers.
+    """
+
+    def is_integer_valued_float_power(e):
+        return e.is_Pow and e.exp.is_Float and float(e.exp).is_integer()
+
+    expr = expr.replace(
+        is_integer_valued_float_power, lambda e: sympy.Pow(e.base, sympy.Integer(int(e.exp)))
+    )
+    return expr.diff(state)
+
+
 def fraction_numerator_is_nonzero(expr):
     """Perform a very cheap check to detect if a fraction is definitely non-zero."""
 
@@ -241,7 +260,7 @@ def hybrid_rush_larsen(
             continue
         i = state_slots[x.state.name]
 
-        expr_diff = x.expr.diff(x.state.symbol)
+        expr_diff = linearize(x.expr, x.state.symbol)
         state_is_stiff = x.state.name in stiff_states_set
 
         if not state_is_stiff or expr_diff.is_zero:
@@ -333,7 +352,7 @@ def generalized_rush_larsen(
             continue
         i = state_slots[x.state.name]
 
-        expr_diff = x.expr.diff(x.state.symbol)
+        expr_diff = linearize(x.expr, x.state.symbol)
 
         if expr_diff.is_zero:
             # Use forward Euler
